@@ -42,15 +42,34 @@ Label(cmd, arg, ids, thr) == [cmd |-> cmd, arg |-> arg, ids |-> ids, thr |-> thr
 NoArg == [kind |-> "none", n |-> 0]
 
 \* ------------------------------- environment ---------------------------------------------
-Start(b) ==
+StartAs(b, cmd, kind) ==
   LET t == PurgedTasks  tb == PurgedTab  free == Nums \ Present(tb) IN
   /\ free # {}
   /\ LET n == Min(free) IN
        /\ tab' = [tb EXCEPT ![n] = Job(b, "running")]
        /\ tasks' = <<n>> \o t
        /\ alive' = alive \cup {n}
-       /\ act' = Label("start", [kind |-> IF b THEN "bg" ELSE "fg", n |-> 0], <<>>, "main")
+       /\ act' = Label(cmd, [kind |-> kind, n |-> 0], <<>>, "main")
        /\ res' = [NoRes EXCEPT !.sel = n]
+
+Start(b) == StartAs(b, "start", IF b THEN "bg" ELSE "fg")
+
+\* a background pipeline started through the real subprocess machinery: every pipeline with at
+\* least one real process is registered (whatever the position of alias stages); a pipeline made
+\* of callable aliases only is not a job
+PipeKinds == {"proc", "proc|proc", "proc|alias", "alias|proc", "alias"}
+StartPipeline(kind) ==
+  IF kind = "alias"
+  THEN /\ act' = Label("startreal", [kind |-> kind, n |-> 0], <<>>, "main") /\ res' = NoRes
+       /\ UNCHANGED <<tab, tasks, alive>>
+  ELSE StartAs(TRUE, "startreal", kind)
+
+\* registration interrupted by a fault (the announcement of the new job cannot be printed):
+\* the job is registered in both structures or in neither
+StartFaulty ==
+  \/ StartAs(TRUE, "startfaulty", "bg")
+  \/ /\ act' = Label("startfaulty", [kind |-> "bg", n |-> 0], <<>>, "main") /\ res' = NoRes
+     /\ tab' = PurgedTab /\ tasks' = PurgedTasks /\ UNCHANGED alive
 
 ProcExit(n) == /\ n \in alive
                /\ alive' = alive \ {n}
@@ -120,6 +139,8 @@ Init == /\ tab = [n \in Nums |-> Absent] /\ tasks = <<>> /\ alive = {}
         /\ act = Label("init", NoArg, <<>>, "main") /\ res = NoRes
 
 Next == \/ \E b \in BOOLEAN : Start(b)
+        \/ \E k \in PipeKinds : StartPipeline(k)
+        \/ StartFaulty
         \/ \E n \in Nums : ProcExit(n) \/ ProcStop(n)
         \/ \E thr \in Threads : JobsCmd(thr)
         \/ \E a \in Args : Fg(a)
@@ -137,7 +158,7 @@ TasksPerm == /\ Range(tasks) = Present(tab)
              /\ Len(tasks) = Cardinality(Range(tasks))
 
 \* finished jobs are gone after every purge point
-PurgePoint == act.cmd \in {"jobs", "fg", "bg", "start"}
+PurgePoint == act.cmd \in {"jobs", "fg", "bg", "start", "startreal", "startfaulty"}
 NoDeadAfterPurge == PurgePoint => Present(tab) \subseteq alive
 
 \* `jobs` lists every live job exactly once
@@ -145,7 +166,7 @@ JobsListsLive == act.cmd = "jobs" =>
                    /\ Range(res.out) = Present(tab) /\ Len(res.out) = Cardinality(Present(tab))
 
 \* numbers are the lowest free ones
-LowestFree == [][ act'.cmd = "start" =>
+LowestFree == [][ (act'.cmd \in {"start", "startreal", "startfaulty"} /\ res'.sel # 0) =>
                     /\ res'.sel \notin Present(PurgedTab)
                     /\ \A m \in 1..(res'.sel - 1) : m \in Present(PurgedTab) ]_vars
 
